@@ -1808,10 +1808,56 @@ impl PhysicalPlanner {
             }
 
             LogicalPlan::Values(node) => {
-                // Evaluate constant expressions and create a batch
+                // Evaluate the constant row expressions against a one-row,
+                // zero-column batch (the unit row EmptyRelation also uses) and
+                // assemble them column-wise into a single batch. Cells are
+                // cast to the column type the binder inferred from the first
+                // row, so a bare NULL or an integer under a DOUBLE column fits.
                 let schema = plan_schema_to_arrow(&node.schema);
-                // For now, return empty - proper implementation needs expression evaluation
-                let exec = MemoryTableExec::new("values", schema, vec![], None);
+                let ncols = schema.fields().len();
+                let unit = arrow::record_batch::RecordBatch::try_new_with_options(
+                    Arc::new(Schema::empty()),
+                    vec![],
+                    &arrow::record_batch::RecordBatchOptions::new().with_row_count(Some(1usize)),
+                )?;
+                let mut cells: Vec<Vec<arrow::array::ArrayRef>> =
+                    vec![Vec::with_capacity(node.values.len()); ncols];
+                for row in &node.values {
+                    if row.len() != ncols {
+                        return Err(QueryError::Plan(format!(
+                            "VALUES rows must all have {} columns, found a row with {}",
+                            ncols,
+                            row.len()
+                        )));
+                    }
+                    for (i, e) in row.iter().enumerate() {
+                        let cell = crate::physical::operators::evaluate_expr(&unit, e)?;
+                        let want = schema.field(i).data_type();
+                        let cell = if cell.data_type() == want {
+                            cell
+                        } else {
+                            arrow::compute::cast(cell.as_ref(), want)?
+                        };
+                        cells[i].push(cell);
+                    }
+                }
+                let batches = if node.values.is_empty() || ncols == 0 {
+                    vec![]
+                } else {
+                    let columns = cells
+                        .iter()
+                        .map(|parts| {
+                            let refs: Vec<&dyn arrow::array::Array> =
+                                parts.iter().map(|a| a.as_ref()).collect();
+                            arrow::compute::concat(&refs)
+                        })
+                        .collect::<std::result::Result<Vec<_>, _>>()?;
+                    vec![arrow::record_batch::RecordBatch::try_new(
+                        schema.clone(),
+                        columns,
+                    )?]
+                };
+                let exec = MemoryTableExec::new("values", schema, batches, None);
                 Ok(Arc::new(exec))
             }
 
